@@ -109,6 +109,8 @@ type FnTrans struct {
 	assumpTerms []string
 	knownRefs map[string]bool
 	strPairs map[string]bool
+	subRefSeen map[string]bool
+	subRefTerms []string
 	privateAlloc map[ssa.Value]bool
 	privateRefs map[string]bool
 	phase2 bool
@@ -279,16 +281,29 @@ func (t *FnTrans) elemLoc(elemT types.Type, base, idx string) *Loc {
 
 // subRef: reference of a struct/array stored inline at a location.
 func (t *FnTrans) subRef(l *Loc) string {
+	var term string
 	switch l.Kind {
 	case LCell:
 		return l.Ref
 	case LField:
 		fn := t.declareFun("sub."+l.Owner+"."+l.Field, []string{"Int"}, "Int")
-		return sx(fn, l.Ref)
+		term = sx(fn, l.Ref)
 	default:
 		fn := t.declareFun("elem."+t.sortKey(l.T), []string{"Int", t.mode.idxSort()}, "Int")
-		return sx(fn, l.Ref, l.Idx)
+		term = sx(fn, l.Ref, l.Idx)
 	}
+	// an object stored inline in another one is never nil and never one of
+	// this function's own allocations
+	if !t.subRefSeen[term] {
+		t.subRefSeen[term] = true
+		facts := []string{not(eq(term, "0"))}
+		for _, a := range t.localRefs {
+			facts = append(facts, not(eq(term, a)))
+		}
+		t.assume("true", and(facts...), "inline sub-object is distinct from nil and from local allocations")
+		t.subRefTerms = append(t.subRefTerms, term)
+	}
+	return term
 }
 
 func isStructOrArray(ty types.Type) bool {
@@ -1160,7 +1175,7 @@ func (t *FnTrans) Translate() {
 		t.vals[fv] = v
 		t.params[fv.Name()] = v
 	}
-	t.entrySt[fn.Blocks[0]] = entry
+	t.entrySt[fn.Blocks[0]] = entry.clone() // the entry block mutates its own copy; entry0 stays the pre-state
 	t.reach[fn.Blocks[0]] = "true"
 
 	// requires -> assumptions
@@ -1357,7 +1372,7 @@ func (t *FnTrans) havocLoopState(st *HeapState, li *loopInfo) *HeapState {
 		// ghost state changes only through contracts and site clauses: keep what the loop does not write
 		var gs []string
 		for c := range t.compSorts {
-			if strings.HasPrefix(c, "G.") && !li.mods[c] && !li.ghostAll {
+			if (strings.HasPrefix(c, "G.") || strings.HasPrefix(c, "GA.")) && !li.mods[c] && !li.ghostAll {
 				gs = append(gs, c)
 			}
 		}
@@ -1413,7 +1428,7 @@ func (t *FnTrans) preserveLocalsExcept(st, ns *HeapState, mods map[string]bool) 
 	}
 	var comps []string
 	for c := range t.compSorts {
-		if strings.HasPrefix(c, "G.") {
+		if strings.HasPrefix(c, "G.") || strings.HasPrefix(c, "GA.") {
 			continue
 		}
 		if mods[c] {
@@ -1621,7 +1636,7 @@ func (t *FnTrans) havocAllKeepGhost(st *HeapState) *HeapState {
 	t.preserveLocals(st, ns)
 	var ks []string
 	for c := range t.compSorts {
-		if strings.HasPrefix(c, "G.") {
+		if strings.HasPrefix(c, "G.") || strings.HasPrefix(c, "GA.") {
 			ks = append(ks, c)
 		}
 	}
@@ -1656,6 +1671,13 @@ func (t *FnTrans) modifiesComps(callee *ssa.Function, con *Contract) ([]string, 
 			return nil, false
 		case item == "allbytes":
 			res = append(res, "B."+t.sortKey(types.Typ[types.Uint8]))
+		case strings.HasPrefix(item, "ghostat("):
+			i := strings.Index(item, "\"")
+			j := strings.LastIndex(item, "\"")
+			if i < 0 || j <= i {
+				return nil, false
+			}
+			res = append(res, "GA."+item[i+1:j])
 		case strings.HasPrefix(item, "ghost("):
 			i := strings.Index(item, "\"")
 			j := strings.LastIndex(item, "\"")
